@@ -213,3 +213,40 @@ def awkward_short_cases(rnd, per_tail=2):
                     out.append(dict(version=None, level=rnd.randrange(4), mask=rnd.choice([None, 0, 3, 7]), fit=True,
                                     calls=[(data, opt)], tag="awkward-short"))
     return out
+
+
+TEXTS = ["héllo wörld", "\u0661\u0662\u0663", "\uff11\uff12\uff13\uff14", "12\u00b2", "\u0663\u0664\u0665" * 5, "ΑΒΓ 123", "ＡＢＣ", "١٢٣٤٥٦٧٨٩٠" * 3,
+         "12345", "HELLO WORLD", "hello", "0", "", "٣", "1\u0660", "A\u0391", "123456789012345678901234567890\u0661", "\u00bd", "\u2460\u2461", "x" * 30 + "٤٥"]
+
+
+def api_entry_cases(rnd):
+    """the same compile through other doors of the public API"""
+    out = []
+    # text payloads (UTF-8), thresholds 0 / 20 / 4: what decides the mode must be the BYTES
+    for t in TEXTS:
+        for opt in (0, 20, 4):
+            out.append(dict(version=None, level=rnd.randrange(4), mask=rnd.choice([None, 1, 6]), fit=True, calls=[(t, opt)], tag="text"))
+    # explicit QRData objects: one object added 2-3 times, equal but distinct objects, explicit modes, mixed with plain calls
+    for i in range(60):
+        kind = rnd.choice(["digits", "alnum", "lower", "bytes"])
+        raw = payload(rnd, kind, rnd.choice([1, 5, 17, 30, 60, 100]))
+        mode = rnd.choice([None, None, MODE_BYTE] + ({"digits": [MODE_NUM, MODE_ALN], "alnum": [MODE_ALN]}.get(kind, [])))
+        if mode == MODE_ALN and kind == "alnum":
+            pass
+        rep = rnd.choice([2, 2, 3, 1])
+        same = rnd.random() < 0.7
+        calls = [(("qrdata", 0 if same else k, raw, mode), 20) for k in range(rep)]
+        if rnd.random() < 0.4:
+            calls.insert(rnd.randrange(len(calls) + 1), (payload(rnd, "lower", rnd.randrange(1, 12)), rnd.choice([0, 20])))
+        v = rnd.choice([None, None, 1, 3, 9])
+        out.append(dict(version=v, level=rnd.randrange(4), mask=rnd.choice([None, 0, 7]), fit=True, calls=calls, tag="qrdata-objects"))
+    # qrcode.make(data, ...): sizes in shuffled order (a larger symbol before a smaller one), with and without settings
+    sizes = [1, 300, 5, 60, 2, 900, 10, 40, 3, 150, 7, 20]
+    for n in sizes + sizes[::-1]:
+        kind = rnd.choice(["lower", "digits", "alnum", "mixed"])
+        kw = rnd.random()
+        out.append(dict(version=None if kw < 0.6 else rnd.choice([1, 5, 12]), level=0 if kw < 0.3 else rnd.randrange(4),
+                        mask=None if kw < 0.5 else rnd.randrange(8), fit=True, calls=[(payload(rnd, kind, n), 20)], entry="make-shortcut", tag="make-shortcut"))
+    for k in range(8):
+        out.append(dict(version=None, level=rnd.randrange(4), mask=k, fit=True, calls=[(payload(rnd, "lower", rnd.randrange(1, 30)), 20)], entry="make-shortcut", tag="make-shortcut-mask"))
+    return out
